@@ -6,6 +6,7 @@ import (
 	"go/ast"
 	"go/token"
 	"go/types"
+	"math/big"
 	"strings"
 
 	"golang.org/x/tools/go/ssa"
@@ -160,7 +161,7 @@ func (e *Engine) autoInlinable0(fn *ssa.Function, depth int) bool {
 					}
 					return false
 				}
-				if _, ok := e.contracts[fnKey(callee)]; ok {
+				if _, ok := e.contractMap(fnKey(callee), callee); ok {
 					continue
 				}
 				if isPureExternal(callee) {
@@ -198,7 +199,7 @@ func (c *Ctx) execCall(fr *Frame, st *State, call *ssa.CallCommon, site ssa.Valu
 		// method is resolved statically when it is a small leaf or pure
 		if recv.Dyn != nil && c.eng.invokeContract(call) == nil {
 			if m := c.eng.prog.LookupMethod(recv.Dyn.T, call.Method.Pkg(), call.Method.Name()); m != nil && len(m.Blocks) > 0 {
-				mct := c.eng.contracts[fnKey(m)]
+				mct := c.eng.contractOf(m)
 				if pol := c.callPolicy(m, mct, fr.depth); pol == polInline || pol == polPure {
 					callee, devirt = m, true
 					args = append([]Val{recv.Dyn.V}, args...)
@@ -242,7 +243,7 @@ func (c *Ctx) execCall(fr *Frame, st *State, call *ssa.CallCommon, site ssa.Valu
 		return c.havocVal(rt, "dyn"), true
 	}
 	key := fnKey(callee)
-	ct := c.eng.contracts[key]
+	ct := c.eng.contractOf(callee)
 	switch key {
 	case "strings.Repeat", "bytes.Repeat":
 		if len(args) == 2 && args[0].S != "" && args[1].S != "" && site != nil {
@@ -435,6 +436,29 @@ func (c *Ctx) builtinSemantics(fr *Frame, st *State, callee *ssa.Function, args 
 	case "sync.(*Mutex).Lock", "sync.(*Mutex).Unlock", "sync.(*RWMutex).Lock", "sync.(*RWMutex).Unlock", "sync.(*RWMutex).RLock", "sync.(*RWMutex).RUnlock":
 		c.trusted["sync.Mutex Lock/Unlock: no effect on the sequential state (blocking and memory ordering not modelled)"] = true
 		return Val{T: rt}, true
+	case "strconv.ParseUint", "strconv.ParseInt":
+		// the documented range of the result: err == nil implies that the value fits in
+		// bitSize bits (0 means 64); nothing is said about which value it is
+		if len(args) == 3 && args[2].S != "" && c.mode == INT {
+			tup, ok := rt.(*types.Tuple)
+			if ok && tup.Len() == 2 {
+				n := c.havocVal(tup.At(0).Type(), "parsed")
+				e := c.havocVal(tup.At(1).Type(), "perr")
+				bs := args[2].S
+				if key == "strconv.ParseUint" {
+					for k := 1; k < 64; k++ {
+						c.assume("true", fmt.Sprintf("(=> (and (= %s if_nil) (= %s %d)) (< %s %s))", e.S, bs, k, n.S, new(big.Int).Lsh(big.NewInt(1), uint(k)).String()))
+					}
+				} else {
+					for k := 1; k < 64; k++ {
+						h := new(big.Int).Lsh(big.NewInt(1), uint(k-1))
+						c.assume("true", fmt.Sprintf("(=> (and (= %s if_nil) (= %s %d)) (and (<= (- %s) %s) (< %s %s)))", e.S, bs, k, h.String(), n.S, n.S, h.String()))
+					}
+				}
+				c.trusted["strconv.ParseUint/ParseInt: a nil error implies that the value fits in bitSize bits (documented); the value itself is unconstrained"] = true
+				return Val{T: rt, Elems: []Val{n, e}}, true
+			}
+		}
 	case "bytes.IndexByte":
 		if len(args) == 2 && args[0].S != "" && args[1].S != "" && c.mode == INT {
 			// a deterministic function of the slice contents; characterised by first-occurrence axioms
@@ -531,13 +555,20 @@ func (c *Ctx) callSiteAsserts(fr *Frame, st *State, callee *ssa.Function, args [
 	forms := []string{callee.Name(), fnKey(callee)}
 	if callee.Pkg != nil {
 		forms = append(forms, callee.RelString(callee.Pkg.Pkg))
+		// the names the callee had in the reference tree
+		if old := c.eng.oldFuncKey(callee.Pkg.Pkg.Path(), relKey(callee)); old != "" {
+			forms = append(forms, old, callee.Pkg.Pkg.Path()+"."+old)
+			if i := strings.LastIndex(old, "."); i >= 0 {
+				forms = append(forms, old[i+1:])
+			}
+		}
 	}
 	ords := map[string]int{}
 	for _, f := range forms {
 		if _, dup := ords[f]; dup {
 			continue
 		}
-		if n, ok := sourceOrdinal(fr, at, f); ok {
+		if n, ok := sourceOrdinal(c.eng, fr, at, f); ok {
 			ords[f] = n // ordinal of the call site in source order
 			continue
 		}
@@ -565,6 +596,11 @@ func (c *Ctx) callSiteAsserts(fr *Frame, st *State, callee *ssa.Function, args [
 				env.vars["dollar_"+p.Name()] = args[i]
 			}
 		}
+		for old, i := range c.eng.paramAliases(callee) {
+			if _, taken := env.vars["dollar_"+old]; !taken && i < len(args) {
+				env.vars["dollar_"+old] = args[i]
+			}
+		}
 		name := fmt.Sprintf("%s:%s#%d/%d", kind, cname, siteOrd, cl.Idx)
 		if cl.InScope {
 			// attach only where every identifier of the assertion is in scope
@@ -580,6 +616,7 @@ func (c *Ctx) callSiteAsserts(fr *Frame, st *State, callee *ssa.Function, args [
 			continue
 		}
 		g := c.specBool(env, cl.Expr)
+		cl.Attached++
 		c.oblige(kind, name, st.reach, g, c.pos(pos)).Desc = cl.Text
 	}
 }
@@ -781,6 +818,11 @@ func (c *Ctx) calleeEnv(ct *Contract, callee *ssa.Function, call *ssa.CallCommon
 				env.vars[p.Name()] = args[i]
 			}
 		}
+		for old, i := range c.eng.paramAliases(callee) {
+			if _, taken := env.vars[old]; !taken && i < len(args) {
+				env.vars[old] = args[i]
+			}
+		}
 	} else if call != nil {
 		// interface method / function type contract: parameters named by
 		// the signature, receiver named "self"
@@ -819,6 +861,19 @@ func (c *Ctx) bindResults(env *SpecEnv, callee *ssa.Function, call *ssa.CallComm
 	}
 	if len(rvals) >= 1 {
 		env.vars["result"] = rvals[0]
+	}
+	if callee != nil {
+		// the names the results had in the reference tree
+		if ref := c.eng.refNames(callee); ref != nil && len(ref.Results) == sig.Results().Len() {
+			for i, old := range ref.Results {
+				if old == "" || old == "_" || i >= len(rvals) {
+					continue
+				}
+				if _, clash := env.vars[old]; !clash {
+					env.vars[old] = rvals[i]
+				}
+			}
+		}
 	}
 }
 
@@ -1086,7 +1141,7 @@ func (c *Ctx) execDeferred(fr *Frame, st *State, d deferred) {
 		return
 	}
 	key := fnKey(callee)
-	ct := c.eng.contracts[key]
+	ct := c.eng.contractOf(callee)
 	c.callSiteAsserts(fr, st, callee, d.args, "assert_before_call", d.pos, nil)
 	switch c.callPolicy(callee, ct, fr.depth) {
 	case polInline:
@@ -1139,7 +1194,7 @@ func modifiesNothing(ct *Contract) bool {
 // sourceOrdinal: position of call instruction `at` among the calls of the
 // function to the callee named `form` (short name, qualified name or
 // receiver-qualified name), in source order.
-func sourceOrdinal(fr *Frame, at ssa.Instruction, form string) (int, bool) {
+func sourceOrdinal(eng *Engine, fr *Frame, at ssa.Instruction, form string) (int, bool) {
 	if at == nil || fr.fn == nil {
 		return 0, false
 	}
@@ -1164,6 +1219,9 @@ func sourceOrdinal(fr *Frame, at ssa.Instruction, form string) (int, bool) {
 					continue
 				}
 				match := callee.Name() == form || fnKey(callee) == form || (callee.Pkg != nil && callee.RelString(callee.Pkg.Pkg) == form)
+				if !match {
+					match = eng.wasCalled(callee, form)
+				}
 				if match {
 					sites = append(sites, site{in, in.Pos()})
 				}
